@@ -103,6 +103,7 @@ SITES = {
     'format_opaque': r'(?<![\w:])format!\s*\(',
     'opt_map_ctor': r'\.\s*map\s*\(\s*[A-Z]\w*(?:::\w+)+\s*\)',
     'and_then': r'\.\s*and_then\s*\(',
+    'chars_all': r'\.\s*chars\s*\(\s*\)\s*\.\s*all\s*\(',
 }
 
 
@@ -454,6 +455,14 @@ def apply(text, args):
                'if %s { __t4_hit = true; } else { __t4_i += 1; }\n'
                '}\n'
                '%s__t4_hit }') % (recv.strip(), pat, stop_if, '!' if kind == 'bytes_all' else '')
+    elif kind == 'chars_all':
+        # RECV.chars().all(|c| P): loop over the characters (vstd: unicode_len / get_char), stop at the first !(P)
+        new = ('{ let __t4_s: &str = &%s; let __t4_n = __t4_s.unicode_len(); let mut __t4_i: usize = 0; let mut __t4_hit: bool = false;\n'
+               'while !__t4_hit && __t4_i < __t4_n {\n'
+               'let %s = __t4_s.get_char(__t4_i);\n'
+               'if !(%s) { __t4_hit = true; } else { __t4_i += 1; }\n'
+               '}\n'
+               '!__t4_hit }') % (recv.strip(), pat, body)
     elif kind in ('iter_all', 'iter_any'):
         stop_if = '!(%s)' % body if kind == 'iter_all' else '(%s)' % body
         new = ('{ let __t4_v = &%s; let mut __t4_i: usize = 0; let mut __t4_hit: bool = false;\n'
